@@ -556,6 +556,8 @@ LAYOUTS = [
     # run from a sub-directory: files of other directories are named `../...`
     # on the command line and in the imports (cwd "app", see CWD_OF_LAYOUT)
     ["main.pn", "../common/util.pn", "../common/deep/m2.pn", "local/m3.pn"],
+    # names that differ in case only (they are different files)
+    ["app/main.pn", "app/Shapes.pn", "app/shapes.pn", "App/shapes.pn"],
     # long paths (module names are derived from them)
     ["a_rather_long_directory_name/with_another_level/the_main_module_of_the_program.pn",
      "a_rather_long_directory_name/with_another_level/a_helper_module_with_a_long_name.pn",
